@@ -171,9 +171,9 @@ def heartbeat (s : LState) : LState := { s with lastSend := s.clock }
 def onVoteRequest (s : LState) (t : Nat) : LState × String :=
   if s.term < t then ({ s with term := t, packed := revoked }, "vote-stepdown") else (s, "vote-reject")
 
-/-- inbound `AppendEntries` at the leader: revokes, does NOT adopt the term -/
+/-- inbound `AppendEntries` at the leader: adopts the request term (since fix 05b4801) and revokes -/
 def onAppendEntries (s : LState) (t : Nat) : LState × String :=
-  if s.term ≥ t then (s, "ae-reject") else ({ s with packed := revoked }, "ae-stepdown")
+  if s.term ≥ t then (s, "ae-reject") else ({ s with term := t, packed := revoked }, "ae-stepdown")
 
 /-- inbound `ClusterConfUpdate` at the leader: neither revokes nor adopts the term -/
 def onConfUpdate (s : LState) (t : Nat) : LState × String :=
